@@ -8,6 +8,7 @@ CHECKS["C19"] = {
     "rule": ("GBN: every packet type x all 256 values of each one-byte field x both flags x 11 payload lengths (enumerated); "
              "every byte string of length 0..3 through Deserialize (enumerated, 16.8M); rapid-generated structured and raw longer strings; "
              "MsgData: 256 version bytes x 10 payload lengths up to 1 MiB, all byte strings <=2, header/body length grid; "
+             "TestC19ReusedValue / TestC19MsgDataReused: ONE value (fresh, or filled by Deserialize) serialised, some of its fields assigned in place (flags, payload of the same or another length, Seq / refilled by Deserialize), serialised again, 2-8 times over: every serialisation decodes to what the value holds at that moment. "
              "native go fuzzing in the thorough tier. Oracle: Deserialize(Serialize(v)) == v (nil == empty payload) and, for bytes b that deserialise, "
              "Deserialize(Serialize(Deserialize(b))) == Deserialize(b). Non-trivial: a value case, or a byte string the decoder accepts; distinct by content."),
     "exhaustive_scope": "all field values of every packet type for the listed payload lengths; all byte strings of length <= 3 (GBN) / <= 2 (MsgData)",
@@ -200,7 +201,7 @@ CHECKS["C07"] = {
 CHECKS["C03"] = {
     "level": "exploration",
     "rule": ("rapid-generated handshakes over an in-memory message pipe that records every byte: XX with equal / one-bit-different (any of the 112 bits) / random / shorter / zero-padded (differing only by a trailing zero byte) passphrases, all compatible version ranges, "
-             "KK with each side's stored remote key right or wrong, KK impostors (either role presents the paired public key but computes its ECDH with an unrelated private key) and KK parties whose private-key operation fails (initiator, responder or both), drawn static keys, deterministic ephemerals, auth payloads 16 B .. 200 KB. Oracle: both DoHandshake succeed iff the secrets match; on a mismatch the responder "
+             "KK with each side's stored remote key right or wrong, KK impostors (either role presents the paired public key but computes its ECDH with an unrelated private key) and KK parties whose private-key operation fails (initiator, responder or both), drawn static keys, deterministic ephemerals, auth payloads 16 B .. 200 KB. In half of the XX mismatch cases each of the two passphrases has already paired a session of its own in the same process. Oracle: both DoHandshake succeed iff the secrets match; on a mismatch the responder "
              "returns an error having written zero bytes, the initiator returns an error, its AuthData is unchanged (nil, or the stale payload it held before), no onAuthData/onRemoteStatic callback fired, and the (high-entropy) payload appears nowhere on the wire. "
              "Non-trivial: the mismatch cases; distinct by configuration."),
     "assumptions": ["scrypt cost lowered by the verif hook (as the repo's rpctest tag does)"],
@@ -229,7 +230,7 @@ CHECKS["C17"] = {
     "rule": ("rapid-generated 14-byte entropies (plus all-zero, all-one and all 112 single-bit patterns), 10-word phrases from aezeed.DefaultWordList (plus first/last word repeated), static key pairs and pairs of secrets. "
              "Oracle: MnemonicToEntropy(EntropyToMnemonic(e)) == e with the two unused low bits cleared; EntropyToMnemonic(MnemonicToEntropy(w)) == w; NewPassphraseEntropy is consistent; client and server ConnData.SID agree for "
              "the same passphrase and, after SetRemote on both, agree with each other and differ from the passphrase SID (and the pattern switches XX->KK); GetSID(sid,true) and GetSID(sid,false) differ in exactly the last bit; "
-             "distinct passphrases / client keys give distinct SIDs; the stream-direction clause is also observed at the in-memory relay (TestC17Streams), on the first connection and on up to three further connections of the session built with RefreshClientConn / RefreshServerConn. The ConnData callbacks of both parties call back into their ConnData (SID, RemoteKey, AuthData, HandshakePattern) as SetRemote / SetAuthData allow; static keys whose ECDH operation fails must not yield a SID shared with an unrelated failing pair. Non-trivial: entropy with an unused low bit set, every phrase and SID case."),
+             "distinct passphrases / client keys give distinct SIDs; the stream-direction clause is also observed at the in-memory relay (TestC17Streams), on the first connection and on up to three further connections of the session built with RefreshClientConn / RefreshServerConn. The ConnData callbacks of both parties call back into their ConnData (SID, RemoteKey, AuthData, HandshakePattern) as SetRemote / SetAuthData allow; static keys whose ECDH operation fails must not yield a SID shared with an unrelated failing pair; one in eight SID cases runs real first pairings at negotiated version 0, 1 and 2 and compares both parties' SIDs (key-derived from version 2 on, the passphrase one below) and next patterns afterwards. Non-trivial: entropy with an unused low bit set, every phrase and SID case."),
     "assumptions": ["stream-direction agreement is relative to the in-memory relay"],
     "units": [
         {"pkg": "mboxprop", "run": "TestC17Codec", "checks": (20000, 400000), "shards": (1, 4), "timeout": (600, 3600)},
